@@ -66,6 +66,7 @@ type VC struct {
 	sc        *Script
 	obls      []*Obligation
 	root      string
+	next0     string // allocation watermark at entry of the function under verification
 	notes     map[string]bool // abstractions / imprecisions used
 	heapSorts map[string]string
 	strLits   map[string]string
@@ -436,7 +437,8 @@ func (vc *VC) zero(t types.Type) Val {
 		return Val{K: KRef, T: t, S: "0"}
 	case *types.Slice:
 		z := bvInt(0, 64)
-		return Val{K: KSlice, T: t, Sl: [4]string{"0", z, z, z}}
+		// a nil slice has no backing array: trivially exclusively owned (append allocates)
+		return Val{K: KSlice, T: t, Sl: [4]string{"0", z, z, z}, Own: true}
 	case *types.Interface:
 		return Val{K: KIface, T: t, If: [2]string{"0", "0"}}
 	case *types.Struct:
